@@ -13,6 +13,8 @@ if [ "$N" -ge 5 ]; then SRC=/tmp/seed3_$P.out/$((N-4)); W=/tmp/seed3_$P; fi
 if [ "$N" -ge 7 ]; then SRC=/tmp/seed4_$P.out/$((N-6)); W=/tmp/seed4_$P; fi
 # round 5: seeds 9 and 10 from /tmp/seed5_<P>.out/{1,2}
 if [ "$N" -ge 9 ]; then SRC=/tmp/seed5_$P.out/$((N-8)); W=/tmp/seed5_$P; fi
+# round 6: seeds 11 and 12 from /tmp/seed6_<P>.out/{1,2}
+if [ "$N" -ge 11 ]; then SRC=/tmp/seed6_$P.out/$((N-10)); W=/tmp/seed6_$P; fi
 [ -d $D ] || { mkdir -p $D; cp $SRC/patch.diff $SRC/demo_test.go $D/; cp $SRC/notes.txt $D/ 2>/dev/null; }
 PKG=$(head -3 $D/demo_test.go | grep -oE '"[^"]+"' | head -1 | tr -d '"'); PKG=${PKG:-.}
 [ -n "${PKGDIR:-}" ] && PKG=$PKGDIR
